@@ -13,9 +13,9 @@ git -C $wt diff > $out/patch.confirmed.diff
 echo "files: $(git -C $wt diff --stat | tail -1)"
 t=$(PYTHONPATH=$wt PYTHONDONTWRITEBYTECODE=1 /venv/bin/python -m pytest -q -p no:cacheprovider 2>&1 | tail -1); echo "tests with change: $t"
 PYTHONPATH=$wt PYTHONDONTWRITEBYTECODE=1 timeout 900 /venv/bin/python -W ignore $out/demo.py > $out/demo_with.txt 2>&1; echo "demo with change: exit $?"
-git -C $wt stash -q
+git -C $wt apply -R $out/patch.confirmed.diff   # (not `git stash`: the stash is shared by all worktrees of a repository, so parallel runs would swap changes)
 PYTHONPATH=$wt PYTHONDONTWRITEBYTECODE=1 timeout 900 /venv/bin/python -W ignore $out/demo.py > $out/demo_without.txt 2>&1; echo "demo without change: exit $?"
-git -C $wt stash pop -q
+git -C $wt apply $out/patch.confirmed.diff
 for c in $checks; do
   s=$(date +%s)
   r=$(SHANGRLA_REPO=$wt VERIF_EVIDENCE_DIR=$out/ev VERIF_FOUND_DIR=$out/found /venv/bin/python /verif/run_check.py $c --tier quick --jobs 8 2>&1)
